@@ -29,11 +29,15 @@ def c02(v, tier):
         n = rng.randint(1, 12)
         size = n * b + rng.randint(0, b - 1)
         cases.append((rng.randint(1, size), size, b, w))
+    # the announced transfer size disagrees with what is sent (no storage fault): tsize is advisory
+    for size, b, w, ts in [(3000, 512, 1, 5000), (3000, 1024, 4, 30000), (3000, 512, 2, 100), (0, 512, 1, 700), (2048, 512, 2, 1), (5000, 1000, 3, 1 << 33)]:
+        cases.append((None, size, b, w, ts))
     plans = [(single, c) for single in (False, True) for c in cases]
-    checks = {"ack_time_file_checks": 0, "uploads_cut_by_limit": 0, "uploads_completed": 0}
+    checks = {"ack_time_file_checks": 0, "uploads_cut_by_limit": 0, "uploads_completed": 0, "uploads_with_wrong_tsize": 0}
 
     def one(p):
-        single, (lim, size, b, w) = p
+        single, (lim, size, b, w, *rest) = p
+        tsize = rest[0] if rest else None
         sb = ctx.sandbox("c02")
         content = N.keyed_content(f"c02-{lim}-{size}-{b}-{w}", size)
         path = os.path.join(sb["srv"], "up.bin")
@@ -46,7 +50,8 @@ def c02(v, tier):
                 return
             acked = min((base + d) * bb, size)
             try:
-                got = open(path, "rb").read()
+                with open(path, "rb") as fh:
+                    got = fh.read(acked + 1)
             except OSError:
                 got = None
             nchecks[0] += 1
@@ -54,16 +59,24 @@ def c02(v, tier):
                 bad.append((base + d, acked, None if got is None else len(got)))
 
         with N.Server(tftpd, sb["srv"], single=single, logdir=sb["logs"], fsize_limit=lim) as srv:
-            tr = N.upload(srv.addr, "up.bin", content, [("blksize", b), ("windowsize", w), ("timeout", 1)], family=srv.family, timeout=0.5, on_ack=on_ack)
+            opts = [("blksize", b), ("windowsize", w), ("timeout", 1)] + ([("tsize", tsize)] if tsize is not None else [])
+            tr = N.upload(srv.addr, "up.bin", content, opts, family=srv.family, timeout=0.5, on_ack=on_ack)
             time.sleep(0.05)
-            final = open(path, "rb").read() if os.path.exists(path) else None
+            final = None
+            if os.path.exists(path):
+                with open(path, "rb") as fh:
+                    final = fh.read(size + 1)
+                if os.path.getsize(path) != len(final):
+                    final += b"\0" * min(os.path.getsize(path) - len(final), 1 << 20)    # longer than the upload: differs anyway
         return p, tr, bad, nchecks[0], final, content
 
     with concurrent.futures.ThreadPoolExecutor(max_workers=8) as ex:
         for p, tr, bad, n, final, content in ex.map(one, plans):
-            single, (lim, size, b, w) = p
+            single, (lim, size, b, w, *rest) = p
             checks["ack_time_file_checks"] += n
-            replay = {"engine": "net", "single_port": single, "file_size_limit": lim, "upload_len": size, "blksize": b, "windowsize": w, "acks": [a[0] for a in tr.acks][:20]}
+            if rest:
+                checks["uploads_with_wrong_tsize"] += 1
+            replay = {"engine": "net", "single_port": single, "file_size_limit": lim, "upload_len": size, "blksize": b, "windowsize": w, "announced_tsize": rest[0] if rest else None, "acks": [a[0] for a in tr.acks][:20]}
             mode = "single" if single else "multi"
             if bad:
                 k, acked, have = bad[0]
@@ -71,7 +84,7 @@ def c02(v, tier):
             if tr.completed:
                 checks["uploads_completed"] += 1
                 if final != content:
-                    v.violation("C02/net/final-ack-file-differs", f"{mode}-port, file size limit {lim}: final block acknowledged but the stored file ({None if final is None else len(final)} B) is not the uploaded payload ({size} B)", replay)
+                    v.violation("C02/net/final-ack-file-differs", f"{mode}-port, file size limit {lim}{', announced tsize ' + str(rest[0]) if rest else ''}: final block acknowledged but the stored file ({None if final is None else len(final)} B) is not the uploaded payload ({size} B)", replay)
             else:
                 checks["uploads_cut_by_limit"] += 1
                 if lim is None or lim >= size:
